@@ -231,6 +231,12 @@ package authenticode
 //@   before call (*imageHasher).section(_, src, _): assert @sections_read_from_the_image src == r && trailers == 0
 //@   before call invoke hash.Hash.Write(w, p): assert @only_alignment_padding_is_hashed_behind_the_trailer trailers == 1 && w == digester.imageDigest && padded == 0
 //@   on call invoke hash.Hash.Write(_, p) ret (n, e): padded = padded + len(p)
+//@   ghost finished int = 0
+//@   before call invoke hash.Hash.Write(_, _): assert @nothing_is_hashed_once_the_digest_was_taken finished == 0
+//@   before call (*imageHasher).finish(_): assert @digest_taken_once_after_trailer_and_alignment_padding trailers == 1 && finished == 0 && padded < 8 && \
+//@        (trailerEnd >= 0 ==> (trailerEnd + padded) % 8 == 0)
+//@   on call (*imageHasher).finish(_) ret (im, ph, e): finished = finished + 1
+//@   ensures @imprint_is_the_digest_of_the_padded_image ret1 == nil ==> finished == 1
 //@   ensures @digest_present_on_success ret1 == nil ==> ret0 != nil
 //@   ensures @signature_goes_behind_the_padded_image ret1 == nil ==> ret0 != nil && trailers == 1 && ret0.OrigSize == trailerEnd && ret0.CertStart == ret0.OrigSize + padded && \
 //@        0 <= padded && padded < 8 && (trailerEnd >= 0 ==> ret0.CertStart % 8 == 0) && ret0.markers == hvals
